@@ -33,6 +33,14 @@ type Loaded struct {
 	cs    *ContractSet
 	bound map[*ssa.Function]*Contract
 	byKey map[string]*ssa.Function
+	// interface method contracts: "pkg.Iface.Method" -> contract and a carrier implementation (its parameter
+	// names, signature and package stand for those of the interface method)
+	iface map[string]*ifaceContract
+}
+
+type ifaceContract struct {
+	ct      *Contract
+	carrier *ssa.Function
 }
 
 func load(patterns ...string) *Loaded {
@@ -92,6 +100,26 @@ func (l *Loaded) bind() []string {
 			continue
 		}
 		var fn *ssa.Function
+		if c.Flags["interface"] {
+			// contract of an interface method: applied at dynamic calls whose receiver type is not known
+			var carrier *ssa.Function
+			for fl := range c.Flags {
+				if strings.HasPrefix(fl, "carrier:") {
+					if t := sp.Type(strings.TrimPrefix(fl, "carrier:")); t != nil {
+						carrier = l.prog.LookupMethod(types.NewPointer(t.Type()), sp.Pkg, c.Name)
+					}
+				}
+			}
+			if carrier == nil {
+				unbound = append(unbound, sp.Pkg.Name()+"."+c.Key()+" (interface contract without carrier)")
+				continue
+			}
+			if l.iface == nil {
+				l.iface = map[string]*ifaceContract{}
+			}
+			l.iface[sp.Pkg.Name()+"."+c.Recv+"."+c.Name] = &ifaceContract{ct: c, carrier: carrier}
+			continue
+		}
 		if c.Recv == "" {
 			fn = sp.Func(c.Name)
 		} else if t := sp.Type(c.Recv); t != nil {
@@ -122,6 +150,8 @@ func (l *Loaded) bind() []string {
 
 func newEngine(l *Loaded) *Engine {
 	e := newEngine0(l)
+	e.l = l
+	e.ifaceUsed = map[string]bool{}
 	e.pkgInit = map[*ssa.Package]bool{}
 	e.globalsRead = map[string]bool{}
 	e.opaqueUsed = map[string]bool{}
